@@ -436,7 +436,7 @@ func (r *Reader) seek(rec record) (*tableIter, error) {
 	}
 
 	tabIter, err := r.start(rec.typ(), false)
-	if err != nil {
+	if err != nil || tabIter == nil {
 		return nil, err
 	}
 
@@ -453,6 +453,10 @@ func (r *Reader) seekIndexed(want record) (*tableIter, error) {
 	if err != nil {
 		return nil, err
 	}
+	if idxIter == nil {
+		// the footer does not point at an index block.
+		return nil, fmtError
+	}
 
 	wantIdx := &indexRecord{
 		LastKey: want.key(),
@@ -466,16 +470,24 @@ func (r *Reader) seekIndexed(want record) (*tableIter, error) {
 	for {
 		var rec indexRecord
 		ok, err := idxIter.Next(&rec)
+		if err != nil {
+			return nil, err
+		}
 		if !ok {
 			return nil, nil
 		}
-		if err != nil {
-			return nil, err
-		}
 
+		if rec.Offset >= idxIter.blockOff {
+			// an index block is written after the blocks it
+			// indexes; anything else could send us in circles.
+			return nil, fmtError
+		}
 		tabIter, err := r.tabIterAt(rec.Offset, blockTypeAny)
 		if err != nil {
 			return nil, err
+		}
+		if tabIter == nil {
+			return nil, fmtError
 		}
 
 		err = tabIter.bi.seek(want.key())
@@ -488,7 +500,7 @@ func (r *Reader) seekIndexed(want record) (*tableIter, error) {
 		}
 
 		if tabIter.typ != blockTypeIndex {
-			log.Panicf("got type %c following indexes", tabIter.typ)
+			return nil, fmtError
 		}
 
 		idxIter = tabIter
@@ -519,7 +531,8 @@ func (r *Reader) seekLinear(tabIter *tableIter, want record) (bool, error) {
 			return false, err
 		}
 		if !ok {
-			panic("read from fresh block failed")
+			// a block without records.
+			return false, fmtError
 		}
 		if rec.key() > wantKey {
 			break
